@@ -69,48 +69,52 @@ theorem terminal_line_agrees (doc : List Char) (o : Nat) :
   simp only at this ⊢
   omega
 
-/-- Terminal column is the **byte** length of the line prefix + 1, and the reported text is the line. -/
-theorem terminal_col_bytes (pre post : List Char) :
-    (getLineInfo (pre ++ post) (utf8Len pre)).2.1 = utf8Len (lastLine pre) + 1 ∧
+theorem charsBefore_prefix (a b : List Char) (pos : Nat) :
+    charsBefore (a ++ b) pos (pos + utf8Len a) = a.length := by
+  induction a generalizing pos with
+  | nil =>
+    cases b with
+    | nil => simp [charsBefore]
+    | cons c cs => simp [charsBefore, utf8Len]
+  | cons c cs ih =>
+    have hpos := utf8Size_pos c
+    simp only [List.cons_append, charsBefore, utf8Len]
+    rw [if_pos (by omega)]
+    have := ih (pos + c.utf8Size)
+    have e : pos + c.utf8Size + utf8Len cs = pos + (c.utf8Size + utf8Len cs) := by omega
+    rw [e] at this
+    rw [this]; simp; omega
+
+/-- Terminal column is the **character** length of the line prefix + 1, and the reported text is the line. -/
+theorem terminal_col_chars (pre post : List Char) :
+    (getLineInfo (pre ++ post) (utf8Len pre)).2.1 = (lastLine pre).length + 1 ∧
     (getLineInfo (pre ++ post) (utf8Len pre)).2.2 = lastLine pre ++ post.takeWhile (· ≠ '\n') := by
   unfold getLineInfo
   rw [utf8Len_append, Nat.min_eq_left (by omega)]
   obtain ⟨ls', h1, h2⟩ := gliGo_boundary pre post [] 0 1 0 (by simp [utf8Len])
   simp only [Nat.zero_add, List.nil_append] at h1 h2
   simp only [h1]
-  refine ⟨by unfold lastLine; omega, ?_⟩
-  apply takeWhile_append_of_all
-  intro x hx
-  have := (lastLine_spec pre).1
-  simp only [decide_eq_true_eq, ne_eq]
-  intro e; subst e; exact this hx
+  have htext : (lastLine pre ++ post).takeWhile (· ≠ '\n') = lastLine pre ++ post.takeWhile (· ≠ '\n') := by
+    apply takeWhile_append_of_all
+    intro x hx
+    have := (lastLine_spec pre).1
+    simp only [decide_eq_true_eq, ne_eq]
+    intro e; subst e; exact this hx
+  have hll : lastLineFrom [] pre = lastLine pre := rfl
+  rw [hll] at h2 ⊢
+  refine ⟨?_, htext⟩
+  rw [htext, ← h2, charsBefore_prefix]
 
-def IsAscii (cs : List Char) : Prop := ∀ c ∈ cs, c.utf8Size = 1
-
-theorem utf8Len_ascii (cs : List Char) (h : IsAscii cs) : utf8Len cs = cs.length := by
-  induction cs with
-  | nil => rfl
-  | cons c cs ih =>
-    have h1 : c.utf8Size = 1 := h c (by simp)
-    have h2 := ih (fun x hx => h x (by simp [hx]))
-    simp [utf8Len, h1, h2]; omega
-
-/-- Full statement: the terminal column agrees with the character count. False today (bytes are
-counted); proved under the hypothesis that the part of the line before the offset is ASCII. -/
-def TerminalColAgrees : Prop :=
-  ∀ pre post : List Char,
-    (getLineInfo (pre ++ post) (utf8Len pre)).2.1 = (offsetToPosition (pre ++ post) (utf8Len pre)).2 + 1
-
-theorem terminal_col_agrees_partial (pre post : List Char) (h : IsAscii (lastLine pre)) :
+/-- MAIN (terminal column): for every document and every character-boundary offset, the column printed in
+`file:line:col` is the editor character + 1 — it agrees with counting characters (not bytes). -/
+theorem terminal_col_agrees (pre post : List Char) :
     (getLineInfo (pre ++ post) (utf8Len pre)).2.1 = (offsetToPosition (pre ++ post) (utf8Len pre)).2 + 1 := by
-  rw [(terminal_col_bytes pre post).1, agrees_with_counting, utf8Len_ascii _ h]
+  rw [(terminal_col_chars pre post).1, agrees_with_counting]
 
-/-- Witness for the excluded hypothesis: after `é` the terminal column is 3, the editor character 1. -/
-theorem terminal_col_counterexample : ¬ TerminalColAgrees := by
-  intro h
-  have := h ['é'] ['x']
-  revert this
-  decide
+/-- Before the fix the column was a byte count: after `é` it was 3 where the editor character is 1. -/
+theorem old_terminal_col_counted_bytes :
+    (getLineInfoBytes ['é', 'x'] 2).2.1 = 3 ∧ (offsetToPosition ['é', 'x'] 2).2 + 1 = 2 ∧
+    (getLineInfo ['é', 'x'] 2).2.1 = 2 := by decide
 
 /-! Non-vacuity / concrete instances. -/
 example : offsetToPosition "a\né😀b".toList 7 = (1, 2) := by decide
